@@ -12,14 +12,13 @@ Every theorem quantifies over ALL schedules `ops` (all completion orders of the 
 body ends, and the cancellation of the helper's caller at any moment), all failure patterns `outs` (a body returns, raises, or ends in `CancelledError`), all semaphore sizes `n ≥ 1`, any number of tasks: `run fl en n outs ops = some s`
 says `s` is the state after the whole schedule; every prefix of a schedule is a schedule, so this is "after every step".
 
-Three defects found by this check were repaired in the code (b83b6cc09 `bounded_gather` holds a permit; 2f78d4573
+Four defects found by this check were repaired in the code (b83b6cc09 `bounded_gather` holds a permit; 2f78d4573
 `cancel_on_error` cancels and awaits every unfinished task; 426463a22 `OnlineBoundedGather2._shutdown` waits for the tasks it
-cancels): the corresponding clauses are theorems about the current model, and the pre-repair behaviour is kept as
-`startOld / stepOld` with the refutations on the old witnesses.  Two clauses are still FALSE for the code as it is: the bound
-(finding F4: the permit that `WithoutSemaphore` does not re-acquire on error) and "no task pending at exit" of the online pool
-(finding F5: a caller cancelled inside `__aexit__` abandons the running tasks).  Each is kept at full strength as a `def … : Prop`,
-refuted on its minimal witness (the ones the check replays on the real code and `known_findings.json` lists) and proved in the
-strongest form that does hold (`running_le_bound_partial`, `pending_empty_at_exit_partial`).
+cancels; 316170afa the pool shuts down when its exit wait is cancelled): the corresponding clauses are theorems about the current model, and the pre-repair behaviour is kept as
+`startOld / stepOld` with the refutations on the old witnesses.  One clause is still FALSE for the code as it is: the bound (finding F4: the permit that
+`WithoutSemaphore` does not re-acquire on error).  It is kept at full strength as a `def … : Prop`, refuted on its minimal witness
+(the one the check replays on the real code and `known_findings.json` lists) and proved in the strongest form that does hold
+(`running_le_bound_partial`).
 -/
 namespace HailVerif.C20
 open HailVerif.Gather
@@ -65,18 +64,11 @@ theorem running_le_bound_fails_after_error : ¬ RunningLeBound := by
   have := h .raiseFirst .holdingPermit 1 [.raise 0, .ret 0, .ret 0] [.finish 0] _ (by decide) rfl
   revert this; decide
 
-/-- FALSE also through finding F5: an online pool under `Semaphore(1)` with two tasks whose caller is cancelled inside `__aexit__`:
-nothing is re-acquired, the caller's `async with sema:` releases again, and the two abandoned tasks run at once. -/
-theorem running_le_bound_fails_after_cancelled_exit : ¬ RunningLeBound := by
-  intro h
-  have := h .online .holdingPermit 1 [.ret 0, .ret 0] [.body (.ret 0), .cancelCaller] _ (by decide) rfl
-  revert this; decide
-
 /-- What does hold, for `bounded_gather2`/the pool called by a permit holder and for `bounded_gather(parallelism=n)` alike: at most
-`n` bodies run at once, at every step — always for `return_exceptions` and `cancel_on_error=True`, for `cancel_on_error=False` as
-long as the helper has not raised, and for the online pool as long as its exit has not been cancelled. -/
+`n` bodies run at once, at every step — always for `return_exceptions`, `cancel_on_error=True` and the online pool, and for
+`cancel_on_error=False` as long as the helper has not raised. -/
 theorem running_le_bound_partial (hn : 1 ≤ n) (h : run fl en n outs ops = some s)
-    (hok : fl ≠ .raiseFirst ∨ ∀ x, s.helper ≠ .raised x) (hna : s.helper ≠ .abandoned) : nRunning s.st ≤ n := by
+    (hok : fl ≠ .raiseFirst ∨ ∀ x, s.helper ≠ .raised x) : nRunning s.st ≤ n := by
   have hr := run_reach h
   have := permits_accounted fl en n outs ops s hn h
   obtain ⟨⟨h1, _, _⟩, hC, _, _⟩ := reach_all hr
@@ -90,13 +82,23 @@ theorem running_le_bound_partial (hn : 1 ≤ n) (h : run fl en n outs ops = some
     | raiseCancel => have := allDone_nRunning _ (hC.rcRaised h1 e hh); omega
     | online => have : budget n s = n := by simp [budget, h1, hh]
                 omega
-  | abandoned => exact absurd hh hna
+  | exitCancelled => have := allDone_nRunning _ (hC.exitCancelledDone hh).2; omega
   | active => have : budget n s ≤ n := by unfold budget; rw [h1, hh]; cases fl <;> simp
               omega
   | exiting => have : budget n s ≤ n := by unfold budget; rw [h1, hh]; cases fl <;> simp
                omega
   | returned sl => have : budget n s ≤ n := by unfold budget; rw [h1, hh]; cases fl <;> simp
                    omega
+
+/-- The permit that is not re-acquired (F4) is also lost when the exit of the online pool is cancelled — but there every task is
+finished, so it does not show as a bound violation of this pool: after a cancelled exit the semaphore has `n + 1` free permits. -/
+theorem cancelled_exit_leaks_a_permit (hn : 1 ≤ n) (h : run fl en n outs ops = some s) (hx : s.helper = .exitCancelled) :
+    s.free = n + 1 := by
+  have := permits_accounted fl en n outs ops s hn h
+  obtain ⟨_, hC, _, _⟩ := reach_all (run_reach h)
+  have h0 := allDone_nRunning _ (hC.exitCancelledDone hx).2
+  have : budget n s = n + 1 := by simp [budget, hx]
+  omega
 
 /-- The repaired defect F1, kept as a witness: before b83b6cc09 `bounded_gather(pf, pf, parallelism=1)` ran both bodies at once
 (the fresh `Semaphore(1)` got a second permit from `WithoutSemaphore.__aenter__`). -/
@@ -170,7 +172,8 @@ theorem none_running_after_return (h : run fl en n outs ops = some s) (sl : List
   refine ⟨(hC.ret sl hret).2.1, ?_⟩
   apply Classical.byContradiction
   intro hne
-  rcases hP hne with ⟨⟨e, he⟩, _⟩ | he <;> simp [hret] at he
+  obtain ⟨⟨e, he⟩, _⟩ := hP hne
+  simp [hret] at he
 
 /-- `cancel_on_error=True`: once the helper has raised — because a task failed, because a task ended in `CancelledError`, or because
 its own caller was cancelled — every task is finished: the unfinished ones were cancelled AND awaited, none was pending at the
@@ -181,9 +184,8 @@ theorem cancel_on_error_cancels_rest (h : run .raiseCancel en n outs ops = some 
   refine ⟨hC.rcRaised h1 x hr, ?_⟩
   apply Classical.byContradiction
   intro hne
-  rcases hP hne with ⟨_, hf⟩ | he
-  · simp [h1] at hf
-  · simp [hr] at he
+  have := (hP hne).2
+  simp [h1] at this
 
 /-- `return_exceptions` whose caller is cancelled: `asyncio.gather` cancels every task and the helper raises only when all of them
 are finished. -/
@@ -193,56 +195,59 @@ theorem return_exceptions_cancelled_leaves_nothing (h : run .returnExceptions en
   refine ⟨(hC.rxRaised h1 x hr).1, ?_⟩
   apply Classical.byContradiction
   intro hne
-  rcases hP hne with ⟨_, hf⟩ | he
-  · simp [h1] at hf
-  · simp [hr] at he
+  have := (hP hne).2
+  simp [h1] at this
 
-/-- `OnlineBoundedGather2` at full strength: once the `async with` block has been left — however — no task is unfinished. -/
-def PendingEmptyAtExit : Prop :=
-  ∀ (en : Entry) (n : Nat) (outs : List Outcome) (ops : List Op) (s : State),
-    1 ≤ n → run .online en n outs ops = some s → (s.helper ≠ .active ∧ s.helper ≠ .exiting) →
-      allDone s.st = true ∧ s.pendingAtReturn = 0
-
-/-- FALSE (open finding F5): one task submitted, the body ends, and while `__aexit__` waits for the task the caller is cancelled:
-`await self._done_event.wait()` raises `CancelledError` straight out of `__aexit__`; the task is neither cancelled nor awaited and
-keeps running after the block was left. -/
-theorem pending_empty_at_exit_fails : ¬ PendingEmptyAtExit := by
-  intro h
-  have := (h .holdingPermit 1 [.ret 0] [.body (.ret 0), .cancelCaller] _ (by decide) rfl (by decide)).1
-  revert this; decide
-
-/-- What does hold: whenever the pool's exit returned, or raised through its shut-down path (a task failed, the body raised, the
-caller was cancelled inside the BODY), every task is finished and none was pending at that instant.  The only other way out is a
-caller cancelled inside `__aexit__` (`exit_abandoned_only_by_cancellation`). -/
-theorem pending_empty_at_exit_partial (h : run .online en n outs ops = some s)
-    (hleft : (∃ sl, s.helper = .returned sl) ∨ ∃ x, s.helper = .raised x) :
+/-- `OnlineBoundedGather2`: once the `async with` block has been left — normally, because a task failed, because the body raised, or
+because the caller was cancelled in the body or inside `__aexit__` — every task is finished and none was pending at that instant. -/
+theorem pending_empty_at_exit (h : run .online en n outs ops = some s) (hleft : s.helper ≠ .active ∧ s.helper ≠ .exiting) :
     allDone s.st = true ∧ s.pendingAtReturn = 0 := by
   obtain ⟨⟨h1, _, _⟩, hC, _, hP⟩ := reach_all (run_reach h)
   constructor
-  · rcases hleft with ⟨sl, hh⟩ | ⟨x, hh⟩
-    · exact (hC.ret sl hh).2.1
-    · exact (hC.excOnline x (hC.raisedExc h1 x hh)).2
+  · cases hh : s.helper with
+    | active => exact absurd hh hleft.1
+    | exiting => exact absurd hh hleft.2
+    | returned sl => exact (hC.ret sl hh).2.1
+    | raised x => exact (hC.excOnline x (hC.raisedExc h1 x hh)).2
+    | exitCancelled => exact (hC.exitCancelledDone hh).2
   · apply Classical.byContradiction
     intro hne
-    rcases hP hne with ⟨_, hf⟩ | he
-    · simp [h1] at hf
-    · rcases hleft with ⟨sl, hh⟩ | ⟨x, hh⟩ <;> simp [hh] at he
+    have := (hP hne).2
+    simp [h1] at this
 
-theorem exit_abandoned_only_by_cancellation (h : run fl en n outs ops = some s) (ha : s.helper = .abandoned) :
+/-- The exit of the pool raises `CancelledError` out of its wait only when the caller was cancelled. -/
+theorem exit_cancelled_only_by_caller (h : run fl en n outs ops = some s) (ha : s.helper = .exitCancelled) :
     fl = .online ∧ Op.cancelCaller ∈ ops := by
   obtain ⟨⟨h1, _, _⟩, hC, hS, _⟩ := reach_all (run_reach h)
-  have hfl : fl = .online := h1 ▸ hC.abandonedOnline ha
+  have hfl : fl = .online := h1 ▸ (hC.exitCancelledDone ha).1
   refine ⟨hfl, ?_⟩
   subst hfl
   exact firstErr_cancelled_caller .online (Or.inr rfl) outs ops (by rw [← hS]; simp [errSeen, ha])
 
-/-- Only `cancel_on_error=False` — by its documentation — and an abandoned pool exit (F5) leave tasks running. -/
+/-- Only `cancel_on_error=False` — by its documentation — leaves tasks running when it raises. -/
 theorem unfinished_at_return_only_without_cancel (h : run fl en n outs ops = some s) (hne : s.pendingAtReturn ≠ 0) :
-    (fl = .raiseFirst ∧ ∃ x, s.helper = .raised x) ∨ s.helper = .abandoned := by
+    fl = .raiseFirst ∧ ∃ x, s.helper = .raised x := by
   obtain ⟨⟨h1, _, _⟩, _, _, hP⟩ := reach_all (run_reach h)
-  rcases hP hne with ⟨he, hf⟩ | he
-  · exact Or.inl ⟨h1 ▸ hf, he⟩
-  · exact Or.inr he
+  obtain ⟨he, hf⟩ := hP hne
+  exact ⟨h1 ▸ hf, he⟩
+
+/-- The repaired defect F5, kept as a witness: before 316170afa, one task submitted, the body ends, and while `__aexit__` waits the
+caller is cancelled: `await self._done_event.wait()` raised `CancelledError` straight out of `__aexit__`; the task was neither
+cancelled nor awaited and kept running after the block was left. -/
+theorem pool_exit_cancelled_failed_before_repair :
+    ¬ (∀ (en : Entry) (n : Nat) (outs : List Outcome) (ops : List Op) (s : State),
+        1 ≤ n → runOld .online en n outs ops = some s → (s.helper ≠ .active ∧ s.helper ≠ .exiting) → allDone s.st = true) := by
+  intro h
+  have := h .holdingPermit 1 [.ret 0] [.body (.ret 0), .cancelCaller] _ (by decide) rfl (by decide)
+  revert this; decide
+
+/-- F5, second face (with F4): before 316170afa two abandoned tasks ran at once under a one-permit semaphore. -/
+theorem pool_exit_cancelled_bound_failed_before_repair :
+    ¬ (∀ (n : Nat) (outs : List Outcome) (ops : List Op) (s : State),
+        1 ≤ n → runOld .online .holdingPermit n outs ops = some s → nRunning s.st ≤ n) := by
+  intro h
+  have := h 1 [.ret 0, .ret 0] [.body (.ret 0), .cancelCaller] _ (by decide) rfl
+  revert this; decide
 
 /-- The repaired defect F2, kept as a witness: before 2f78d4573, tasks `[raise, ok]` on a `Semaphore(1)` held by the caller; task 0
 fails, the clean-up loop re-raised at the failed task and task 1 was never cancelled: running after the helper raised. -/
@@ -320,9 +325,11 @@ example : run .raiseFirst .holdingPermit 2 [.ret 1, .ret 2, .ret 3] [.cancelCall
 example : run .online .holdingPermit 2 [.ret 1, .ret 2] [.cancelCaller]
     = some ⟨.online, .holdingPermit, [.ret 1, .ret 2], [.done .cancelled, .done .cancelled], 2, .raised .cancelled,
         some .cancelled, 0⟩ := by decide
--- F5 (open): the caller is cancelled inside the pool's __aexit__: the task keeps running, 1 unfinished at the exit
+-- the caller is cancelled inside the pool's __aexit__: the pool is shut down first (before F5's repair: the task kept running)
 example : run .online .holdingPermit 1 [.ret 0] [.body (.ret 0), .cancelCaller]
-    = some ⟨.online, .holdingPermit, [.ret 0], [.running], 1, .abandoned, none, 1⟩ := by decide
+    = some ⟨.online, .holdingPermit, [.ret 0], [.done .cancelled], 2, .exitCancelled, some .cancelled, 0⟩ := by decide
+example : runOld .online .holdingPermit 1 [.ret 0] [.body (.ret 0), .cancelCaller]
+    = some ⟨.online, .holdingPermit, [.ret 0], [.running], 1, .exitCancelled, none, 1⟩ := by decide
 -- not a behaviour: finishing a task that is still waiting for a permit
 example : run .raiseFirst .holdingPermit 1 [.ret 0, .ret 0] [.finish 1] = none := by decide
 
